@@ -627,7 +627,8 @@ theorem netInit_inv (specs : List (Nat × Nat)) (tr : Bool) (links : List ((Nat 
   subst hr hd
   exact init_current sp.1 sp.2 tr
 
-/-! ## the defect: a host that returns to an earlier port while its old flow is still cached
+/-! ## the defect of the UNREPAIRED component (`relearn = false`; finding C11-K1, repaired in /repo by 73d2b4b): a host that returns to an
+earlier port while its old flow is still cached
 
 Host A (0x0a) talks to B (0x0b) from port 1, moves to port 2, and moves back to port 1 within the flow's lifetime: its
 frames from port 1 are forwarded by the cached entry, the controller is never told, and B's next new conversation with
